@@ -108,7 +108,7 @@ def TimeSigned.ofList (l : Octets) : TimeSigned :=
 /-! ### integers on the wire -/
 
 /-- `u16::to_be_bytes` -/
-def be16 (x : UInt16) : Octets := u16be x.toNat
+def toBe16 (x : UInt16) : Octets := u16be x.toNat
 
 /-- `u16::from_be_bytes(l[i..i+2])` (callers guarantee the range) -/
 def rd16 (l : Octets) (i : Nat) : UInt16 :=
@@ -131,17 +131,17 @@ def addModifiedMessage {ε} (message : Octets) (originalId : UInt16) : Out ε Oc
   if message.length < Gen.ARCOUNT_START then .panic        -- message[ID_END..ARCOUNT_START]
   else if message.length < Gen.ARCOUNT_END then .panic     -- message[ARCOUNT_START..ARCOUNT_END]
   else if rd16 message Gen.ARCOUNT_START = 0 then .panic   -- `- 1` overflows (dev profile)
-  else .ok (be16 originalId
+  else .ok (toBe16 originalId
             ++ (message.drop Gen.ID_END).take (Gen.ARCOUNT_START - Gen.ID_END)
-            ++ be16 (rd16 message Gen.ARCOUNT_START - 1)
+            ++ toBe16 (rd16 message Gen.ARCOUNT_START - 1)
             ++ message.drop Gen.ARCOUNT_END)
 
 /-- mirrors `add_tsig_timers` -/
-def addTsigTimers (v : Variables) : Octets := v.timeSigned.asSlice ++ be16 v.fudge
+def addTsigTimers (v : Variables) : Octets := v.timeSigned.asSlice ++ toBe16 v.fudge
 
 /-- mirrors `add_tsig_variables` (`other.len() as u16` truncates) -/
 def addTsigVariables (v : Variables) : Octets :=
-  v.keyName ++ Gen.TSIG_CLASS_TTL ++ v.algorithm ++ addTsigTimers v ++ be16 v.error
+  v.keyName ++ Gen.TSIG_CLASS_TTL ++ v.algorithm ++ addTsigTimers v ++ toBe16 v.error
     ++ u16be (v.other.length % 65536) ++ v.other
 
 /-- `update(&(mac.len() as u16).to_be_bytes()); update(mac)` -/
@@ -167,8 +167,8 @@ def subsequentInput {ε} (message priorMac : Octets) (originalId : UInt16) (v : 
 /-- mirrors `serialize_tsig_unchecked` -/
 def serializeTsig (algorithm : Octets) (timeSigned : TimeSigned) (fudge : UInt16) (mac : Octets)
     (originalId error : UInt16) (other : Octets) : Octets :=
-  algorithm ++ timeSigned.asSlice ++ be16 fudge ++ u16be (mac.length % 65536) ++ mac
-    ++ be16 originalId ++ be16 error ++ u16be (other.length % 65536) ++ other
+  algorithm ++ timeSigned.asSlice ++ toBe16 fudge ++ u16be (mac.length % 65536) ++ mac
+    ++ toBe16 originalId ++ toBe16 error ++ u16be (other.length % 65536) ++ other
 
 /-- mirrors `Rdata::new_tsig` (`none` = `RdataTooLongError`) -/
 def newTsig (algorithm : Octets) (timeSigned : TimeSigned) (fudge : UInt16) (mac : Octets)
